@@ -4,6 +4,7 @@ import z3
 from pyvc.contract import Contract
 from pyvc.runner import ContractTask
 from pyvc.values import *   # noqa
+from pyvc.values import J, OJ
 from .transit_lib import make_transit_registry, BodyLemma, T_PY, TRUSTED_LIB, DEFERRED
 from . import c06
 from . import c20 as _c20
@@ -26,6 +27,14 @@ SENDER = "self.owner.is_sender"
 
 NEG_START_FIELDS = {**c06.F_STATE, **c06.F_BUF, **c06.F_NEG, "transport": "obj[Transport]", "owner": "obj[Common]",
                     "relay_handshake": "opt[bytes]"}
+
+# what __init__ establishes and add_connection_hints (C20) keeps: the peer's hints are parsed hint objects, the side is 16 hex digits
+DH = "nt[DirectTCPV1Hint]"
+# what _get_direct_hints establishes and keeps (with __init__: _listener = None)
+LISTEN_INV = ("implies(self._listener is not None, own_direct_ok(self._my_direct_hints)) and "
+              "implies(self._no_listen or self._tor is not None, self._listener is None)")
+CLASS_INV = "all_valid(self._their_direct_hints) and all_relays_valid(self._our_relay_hints) and is_hex16(self._side)"
+STABLE_COMMON = ("is_sender", "_side", "_tor", "_reactor", "_no_listen", "_transit_relays")     # stored by __init__ only
 
 CONTRACTS = [
     Contract(T + "Connection._check_and_remove", props=[PROP], params={"expected": "bytes"},
@@ -411,6 +420,121 @@ CONTRACTS = [
                                 "bcall_arg('callback', 0, 0) == self._inbound_d and bcall_arg('callback', 0, 1) is p")],
              note="the listener's Deferred fires with the first inbound connection that finished negotiation, after every other "
                   "pending inbound negotiation was cancelled (_shutdown by contract)"),
+    # ------------------------------------------------------------------ connect(): the inlineCallbacks wrapper
+    Contract(T + "Common.connect", props=[PROP], params={},
+             self_fields={"is_sender": "bool", "_transit_key": "bytes", "_side": "str", "_listener_d": f"opt[{DEFERRED}]",
+                          "_their_direct_hints": f"seq[{_c20.HINT}]", "_our_relay_hints": "set[nt[RelayV1Hint]]",
+                          "_tor": "opt[obj[Tor]]", "_reactor": "obj[Reactor]", "_waiting_for_transit_key": f"seq[{DEFERRED}]"},
+             requires=[CLASS_INV],
+             modifies=["_transit_key", "_listener_d", "_their_direct_hints", "_our_relay_hints", "_waiting_for_transit_key"],
+             returns="obj[Connection]", raises={"TransitError": None, "RaceFailure": None},
+             ensures=[("returns-the-winner-of-the-race", "result is event_arg('fired', 0, 1)")],
+             internal_ensures=[
+                 ("key-awaited-then-exactly-one-race",
+                  "suspension_order() == ['key', 'call:_connect', 'race'] and n_calls('_connect') == 1"),
+                 ("the-race-awaited-is-the-one-started",
+                  "n_events('fired') == 1 and event_arg('fired', 0, 0) == call_result('_connect')"),
+                 ("a-key-not-yet-known-is-waited-for-not-skipped",
+                  "implies(len(old(self._transit_key)) == 0, n_events('resumed-by-set_transit_key') == 1) and "
+                  "implies(len(old(self._transit_key)) > 0, n_events('resumed-by-set_transit_key') == 0)")],
+             ensures_raise={"TransitError": [("no-contenders-nothing-raced", "n_events('fired') == 0 and n_events('failed') == 0 and "
+                                              "n_calls('_connect') == 1")],
+                            "RaceFailure": [("the-failure-of-the-race-propagates",
+                                             "n_calls('_connect') == 1 and n_events('failed') == 1 and "
+                                             "event_arg('failed', 0, 0) == call_result('_connect')")]},
+             note="@inlineCallbacks generator, `yield` by the model transit_yield_model below: first _get_transit_key() (inlined) is "
+                  "awaited - an already-fired Deferred (defer.succeed) resumes at once, a fresh one must be registered in "
+                  "_waiting_for_transit_key and resumes from set_transit_key with the key just stored; only then _connect() (by "
+                  "contract: its precondition `a transit key is set`, len(self._transit_key) > 0, is the obligation "
+                  "connect.call[Common._connect].requires.3, proved at the call with the state of that moment) runs, exactly once; what its Deferred "
+                  "fires with is returned unchanged; TransitError (no contenders) and the failure of the race leave connect() "
+                  "(the errback of its Deferred).  This version of transit.py sets no description in connect(): the winner's "
+                  "description is Connection.describe() of the returned object"),
+    # ------------------------------------------------------------------ this side's own hints (C20, encode side)
+    Contract(T + "Common._build_listener", props=[PROP, "C20"], params={},
+             self_fields={"_no_listen": "bool", "_tor": "opt[obj[Tor]]", "_reactor": "obj[Reactor]"},
+             returns=f"tuple[seq[{DH}],opt[obj[ServerEndpoint]]]",
+             ensures=[("not-listening-publishes-no-direct-hint",
+                       "implies(self._no_listen or self._tor is not None, len(result[0]) == 0 and result[1] is None)"),
+                      ("listening-gives-an-endpoint", "implies(not self._no_listen and self._tor is None, result[1] is not None)"),
+                      ("own-direct-hints-are-valid-hint-objects", "own_direct_ok(result[0])")],
+             internal_ensures=[
+                 ("one-hint-per-address-on-the-allocated-port",
+                  "implies(not self._no_listen and self._tor is None, n_events('allocated-port') == 1 and n_events('addresses') == 1 and "
+                  "all_on_port(result[0], event_arg('allocated-port', 0, 0)) and len(result[0]) <= len(event_arg('addresses', 0, 0)) and "
+                  "n_events('server-endpoint') == 1 and event_arg('server-endpoint', 0, 1) == 'tcp:' + str(event_arg('allocated-port', 0, 0)))")],
+             note="own_direct_ok: every element is a DirectTCPV1Hint with str hostname, int port in 1..65535 and priority 0.0 "
+                  "(what C20's parser demands of a peer's hint, plus the port range); with no_listen or Tor nothing is published and "
+                  "nothing is listened on; otherwise one hint per address of ipaddrs.find_addresses() (loopback dropped unless it is "
+                  "all there is), all on the port of allocate_tcp_port(), which is the port of the server endpoint"),
+    Contract(T + "Common._get_direct_hints", props=[PROP, "C20"], params={},
+             self_fields={"_no_listen": "bool", "_tor": "opt[obj[Tor]]", "_reactor": "obj[Reactor]",
+                          "_listener": "opt[obj[ServerEndpoint]]", "_my_direct_hints": f"seq[{DH}]",
+                          "_listener_d": f"opt[{DEFERRED}]", "_listener_f": "opt[obj[InboundConnectionFactory]]"},
+             requires=["implies(self._listener is not None, own_direct_ok(self._my_direct_hints))",
+                       "implies(self._no_listen or self._tor is not None, self._listener is None)"],
+             modifies=["_listener", "_my_direct_hints", "_listener_d", "_listener_f"], returns=DEFERRED,
+             ensures=[("own-direct-hints-are-valid-hint-objects", "own_direct_ok(self._my_direct_hints)"),
+                      ("no-direct-hints-unless-listening",
+                       "implies(self._no_listen or self._tor is not None, len(self._my_direct_hints) == 0 and self._listener is None and "
+                       "self._listener_d is None)")],
+             internal_ensures=[
+                 ("listener-started-once-and-only-when-not-yet-listening",
+                  "implies(old(self._listener) is not None, len(bcall_names()) == 0 and n_calls('_build_listener') == 0 and "
+                  "self._my_direct_hints == old(self._my_direct_hints)) and "
+                  "implies(old(self._listener) is None, n_calls('_build_listener') == 1 and "
+                  "bcalls('listen') == ite(self._listener is None, 0, 1))"),
+                 ("already-fired-when-nothing-to-start",
+                  "implies(old(self._listener) is not None or self._listener is None, n_events('succeed') == 1 and "
+                  "event_arg('succeed', 0, 0) == result and event_arg('succeed', 0, 1) == self._my_direct_hints)"),
+                 ("inbound-factory-of-this-transit-listens",
+                  "implies(old(self._listener) is None and self._listener is not None, "
+                  "bcall_names()[:2] == ['listen', 'addCallback'] and bcall_arg('listen', 0, 0) is self._listener and "
+                  "bcall_arg('listen', 0, 1) is self._listener_f and self._listener_f.owner is self and "
+                  "self._listener_d == self._listener_f._inbound_d and "
+                  "result == event_arg('listen-deferred', 0, 0) and bcall_arg('addCallback', 0, 0) == result)"),
+                 ("once-listening-it-fires-with-the-hints-and-the-port-is-closed-when-the-listener-is-done",
+                  "implies(old(self._listener) is None and self._listener is not None, "
+                  "run_callback(bcall_arg('addCallback', 0, 1), a_port()) == self._my_direct_hints and "
+                  "bcall_names()[2:] == ['addBoth'] and bcall_arg('addBoth', 0, 0) == self._listener_d and "
+                  "run_callback(bcall_arg('addBoth', 0, 1), probe()) == probe() and bcall_names()[3:] == ['stopListening'])")],
+             note="the Deferred returned carries the stored direct hints - either defer.succeed(self._my_direct_hints) or the "
+                  "listen() Deferred whose only callback returns self._my_direct_hints (both stated above on the trace): this is the "
+                  "deferred-result contract get_connection_hints uses at its yield.  _build_listener by contract; "
+                  "InboundConnectionFactory.__init__ inlined"),
+    Contract(T + "Common.get_connection_hints", props=[PROP, "C20"], params={},
+             self_fields={"_no_listen": "bool", "_tor": "opt[obj[Tor]]", "_reactor": "obj[Reactor]",
+                          "_listener": "opt[obj[ServerEndpoint]]", "_my_direct_hints": f"seq[{DH}]",
+                          "_listener_d": f"opt[{DEFERRED}]", "_listener_f": "opt[obj[InboundConnectionFactory]]",
+                          "_transit_relays": "seq[nt[RelayV1Hint]]"},
+             requires=[LISTEN_INV],
+             modifies=["_listener", "_my_direct_hints", "_listener_d", "_listener_f"], returns="seq[json]",
+             ensures=[("one-dict-per-direct-hint-then-one-per-relay",
+                       "len(result) == len(self._my_direct_hints) + len(self._transit_relays)"),
+                      ("no-direct-hints-unless-listening",
+                       "implies(self._no_listen or self._tor is not None, len(result) == len(self._transit_relays))"),
+                      ("published-direct-hints-are-wellformed-and-faithful",
+                       "forall(lambda j: implies(0 <= j and j < len(self._my_direct_hints), "
+                       "wellformed_tcp(result[j]) and hint_matches(self._my_direct_hints[j], result[j])), 'int')")],
+             internal_ensures=[("direct-hints-asked-once", "n_calls('_get_direct_hints') == 1 and n_events('yield') == 1")],
+             loops={1: {"header": "for relay in self._transit_relays", "retype": {"hints": "seq[json]"},
+                        "invariant": ["len(hints) == len(at_entry(hints)) + _i", "prefix_of(at_entry(hints), hints)",
+                                      "forall(lambda j: implies(0 <= j and j < len(at_entry(hints)), hints[j] == at_entry(hints)[j]), 'int')"]}},
+             note="@inlineCallbacks: the Deferred of _get_direct_hints (by contract) fires with self._my_direct_hints (its "
+                  "deferred-result contract, see _get_direct_hints).  wellformed_tcp / hint_matches are C20's own predicates: the "
+                  "dict is what parse_tcp_v1_hint accepts, and the hint object carries exactly the dict's fields.  relay_dict_of(d, r): "
+                  "d == {'type': 'relay-v1', 'hints': [one direct-tcp-v1 dict per sub-hint of r, same hostname/port/priority, same "
+                  "order]}.  The two append loops (direct hints, sub-hints) are read as the comprehensions they spell out"),
+    Contract("lemma:published_direct_hint_parses_back", props=[PROP, "C20"], source_module="wormhole/_hints.py",
+             params={"d": "json", "h": DH},
+             source_text="""
+             def published_direct_hint_parses_back(d, h):
+                 return parse_hint(d)
+             """,
+             requires=["wellformed_tcp(d)", "hint_matches(h, d)", "own_direct_ok([h])"],
+             ensures=[("parse-of-a-published-dict-is-the-hint-object", "result == h")],
+             note="encode/parse round trip for the direct hints of get_connection_hints: its postcondition gives wellformed_tcp and "
+                  "hint_matches for every published dict; parse_hint by its C20 contract (imported, not restated)"),
 ]
 
 
@@ -451,7 +575,7 @@ def regf(exclude=()):
     sf["run_callback"] = run_callback
     _c20.install_hint_support(reg)
     for c in _c20.CONTRACTS:
-        if c.target.endswith(":endpoint_from_hint_obj") or c.target.endswith(":describe_hint_obj"):
+        if c.target.endswith((":endpoint_from_hint_obj", ":describe_hint_obj", ":parse_hint", ":parse_tcp_v1_hint")):
             reg.contracts[c.target] = c          # proved in C20, used here
     sf["a_protocol"] = lambda it: VObj("ProtocolB")       # what the endpoint's Deferred fires with (a collaborator here)
 
@@ -482,10 +606,197 @@ def regf(exclude=()):
     sf["iter_bcall_kwarg"] = iter_bcall_kwarg
     em = reg.ext_models
     em["time.time"] = lambda it, args, kw: it.fresh("real", "now")
+
+    def succeed(it, args, kw):
+        """defer.succeed(x): a new, already fired Deferred; what it carries is remembered by the event"""
+        d = it.fresh(DEFERRED, "succeeded")
+        x = args[0]
+        xf = it.force(x)
+        it.ctx.event("succeed", d, x, "key" if isinstance(xf, VStr) and xf.kind == "bytes" else "hints")
+        return d
+
+    em["twisted.internet.defer.succeed"] = succeed
+    install_listener_models(reg)
     sf["probe"] = lambda it: VOpaque(z3.Const("probe!result", opaque_sort("Any")), "Any")
     reg.spec_funcs["exc_class"] = lambda it, x: VStr(it.force(x).cls if isinstance(it.force(x), VObj) else "?")
     sf["diverges"] = lambda it, a, b: VBool(z3.And(z3.Not(z3.PrefixOf(a.z, b.z)), z3.Not(z3.PrefixOf(b.z, a.z))))
     return reg
+
+
+def _own_direct(seq, extra=None):
+    """z3 Bool: every element of a sequence of DirectTCPV1Hint is what this side may publish: str hostname, int port in
+    1..65535, priority 0.0 (a float)"""
+    def one(v):
+        host, port, prio = [to_json(x) for x in v.items]
+        c = [J.is_jstr(host), J.is_jint(port), J.i(port) > 0, J.i(port) < 65536, prio == J.jreal(z3.RealVal(0))]
+        if extra is not None:
+            c.append(extra(host, port, prio))
+        return z3.And(c)
+    if isinstance(seq, (VList, VTuple)):
+        return z3.And([one(x) for x in seq.items] + [z3.BoolVal(True)])
+    i = z3.Int("i!od")
+    return z3.ForAll([i], z3.Implies(z3.And(0 <= i, i < z3.Length(seq.z)), one(from_z3(seq.z[i], seq.elem))))
+
+
+def install_listener_models(reg):
+    """the operating-system side of listening (all trusted, see TRUSTED): a free TCP port, this host's addresses, Twisted's
+    server endpoint and its listen()"""
+    sf = reg.spec_funcs
+
+    def allocate_tcp_port(it, args, kw, fr):
+        p = it.fresh("int", "port")
+        it.ctx.assume(z3.And(p.z > 0, p.z < 65536))
+        it.ctx.event("allocated-port", p)
+        return p
+
+    def find_addresses(it, args, kw, fr):
+        a = it.fresh("seq[str]", "addresses")
+        it.ctx.event("addresses", a)
+        return a
+
+    def server_from_string(it, args, kw):
+        ep = VObj("ServerEndpoint", {})
+        it.ctx.event("server-endpoint", args[0], args[1], ep)
+        return ep
+
+    def listen(it, recv, meth, args, kwargs, fr):
+        it.ctx.event("bcall", "ServerEndpoint", meth, [recv] + list(args), dict(kwargs))
+        d = it.fresh(DEFERRED, "listen_d")
+        it.ctx.event("listen-deferred", d)
+        return d
+
+    reg.func_models[T + "allocate_tcp_port"] = allocate_tcp_port
+    reg.func_models["wormhole/ipaddrs.py:find_addresses"] = find_addresses
+    reg.ext_models["twisted.internet.endpoints.serverFromString"] = server_from_string
+    reg.boundary["ServerEndpoint.listen"] = listen
+    reg.class_fields.setdefault("ServerEndpoint", {})
+    sf["a_port"] = lambda it: VObj("ListeningPort")
+    sf["own_direct_ok"] = lambda it, s: VBool(_own_direct(it.force(s)))
+    sf["all_on_port"] = lambda it, s, p: VBool(_own_direct(it.force(s), lambda host, port, prio: J.i(port) == it.force(p).z))
+
+
+def _self_frame(fr):
+    f = fr
+    while f is not None and f.selfobj is None:
+        f = f.parent
+    return f
+
+
+def transit_yield_model(it, node, fr):
+    """`yield d` inside an @inlineCallbacks method of Common (Deferreds are opaque values here, identified by the event that
+    created them).  defer.succeed(x): already fired, the generator goes on at once with x, nothing else runs in between.
+    A Deferred made by defer.Deferred(): only the key waiters have a deferred-result contract - it must be in
+    _waiting_for_transit_key (proved), set_transit_key() then stores the key and calls d.callback(key), which resumes the
+    generator synchronously: self._transit_key is the value sent, and callers pass a non-empty key.  The Deferred returned by
+    Common._connect (by contract): fires with a Connection (the winner of the race) or fails.  At every real suspension all
+    fields of self that are not stored by __init__ only are havocked and the class invariant is assumed again."""
+    from . import deferred as _d
+    v = it.force(it.eval(node.value, fr)) if node.value is not None else NONE
+    if not (isinstance(v, VOpaque) and v.name == "Deferred"):
+        return v
+    tr = list(it.ctx.trace)
+
+    def same(x):
+        x = it.force(x) if x is not None else None
+        return isinstance(x, VOpaque) and x.z.eq(v.z)
+
+    sfr = _self_frame(fr)
+
+    def suspend():
+        _d.havoc_unstable(it, fr)
+        it.ctx.assume(it.truth(it.eval_spec(CLASS_INV, sfr)))
+
+    for e in tr:
+        if e[0] == "succeed" and same(e[1][0]):
+            it.ctx.event("yield", "key" if e[1][2] == "key" else e[1][2])
+            return e[1][1]
+    for e in tr:
+        if e[0] == "callret" and e[1][0].endswith("Common._connect") and same(e[1][1]):
+            it.ctx.event("yield", "race")
+            suspend()
+            if it.ctx.choose([z3.BoolVal(True), z3.BoolVal(True)], "race-outcome") == 1:
+                it.ctx.event("failed", v)
+                it.raise_("RaceFailure")
+            w = it.fresh("obj[Connection]", "winner")
+            it.ctx.event("fired", v, w)
+            return w
+    for e in tr:
+        if e[0] == "callret" and e[1][0].endswith("Common._get_direct_hints") and same(e[1][1]):
+            # deferred-result contract of _get_direct_hints (its clauses already-fired-when-nothing-to-start /
+            # once-listening-it-fires-with-the-hints..): the value is self._my_direct_hints as stored when it fires
+            it.ctx.event("yield", "direct-hints")
+            _d.havoc_unstable(it, fr)
+            it.ctx.assume(it.truth(it.eval_spec(LISTEN_INV, sfr)))
+            it.ctx.assume(it.truth(it.eval_spec(
+                "own_direct_ok(self._my_direct_hints) and "
+                "implies(self._no_listen or self._tor is not None, len(self._my_direct_hints) == 0)", sfr)))
+            return sfr.selfobj.fields["_my_direct_hints"]
+    for e in tr:
+        if e[0] == "new-deferred" and same(e[1][0]):
+            waiting = it.force(sfr.selfobj.fields["_waiting_for_transit_key"])
+            it.ctx.prove(z3.Contains(waiting.z, z3.Unit(v.z)), "connect.yielded-deferred-is-a-registered-key-waiter",
+                         {"kind": "yield", "src": "the Deferred awaited for the key is in self._waiting_for_transit_key "
+                                                  "(set_transit_key fires exactly those)"})
+            it.ctx.event("yield", "key")
+            suspend()
+            k = it.fresh("bytes", "key_sent")
+            it.ctx.assume(z3.Length(k.z) > 0)
+            it.ctx.assume(it.force(sfr.selfobj.fields["_transit_key"]).z == k.z)
+            it.ctx.event("resumed-by-set_transit_key", v, k)
+            return k
+    raise OutOfSubset("yield of a Deferred without deferred-result contract")
+
+
+def regf_connect():
+    reg = regf()
+    reg.allow_generators = True
+    reg.yield_model = transit_yield_model
+    reg.stable_fields = {"Common": set(STABLE_COMMON)}
+    reg.exc_bases.setdefault("RaceFailure", "Exception")
+
+    def suspension_order(it):
+        out = []
+        for e in it.ctx.trace:
+            if e[0] == "yield":
+                out.append(VStr(e[1][0]))
+            elif e[0] == "call" and e[1][0].endswith("Common._connect"):
+                out.append(VStr("call:_connect"))
+        return VList(out)
+
+    reg.spec_funcs["suspension_order"] = suspension_order
+    reg.spec_funcs["relay_dict_of"] = relay_dict_of
+    return reg
+
+
+def relay_dict_of(it, d, r):
+    """d == {"type": "relay-v1", "hints": [{"type": "direct-tcp-v1", "priority": h.priority, "hostname": h.hostname,
+    "port": h.port} for h in r.hints]} (stated field by field; the sub-dicts in the order of r.hints)"""
+    dz = to_json(it.force(d))
+    r = it.force(r)
+    subs = it.force(r.items[0])
+
+    def fld(x, name):
+        return OJ.v(z3.Select(J.d(x), z3.StringVal(name)))
+
+    def has(x, name):
+        return OJ.is_present(z3.Select(J.d(x), z3.StringVal(name)))
+
+    lst = fld(dz, "hints")
+    m = z3.Int("m!rd")
+    sub = J.l(lst)[m]
+    h = from_z3(subs.z[m], subs.elem)
+
+    def fields_eq(v):
+        host, port, prio = [to_json(x) for x in v.items]
+        return z3.And(fld(sub, "hostname") == host, fld(sub, "port") == port, fld(sub, "priority") == prio)
+
+    per = z3.Or([z3.And(c, fields_eq(x)) for c, x in h.alts]) if isinstance(h, VUnion) else fields_eq(h)
+    return VBool(z3.And(
+        J.is_jdict(dz), has(dz, "type"), fld(dz, "type") == J.jstr(z3.StringVal("relay-v1")), has(dz, "hints"), J.is_jlist(lst),
+        z3.Length(J.l(lst)) == z3.Length(subs.z),
+        z3.ForAll([m], z3.Implies(z3.And(0 <= m, m < z3.Length(subs.z)), z3.And(
+            J.is_jdict(sub), has(sub, "type"), fld(sub, "type") == J.jstr(z3.StringVal("direct-tcp-v1")),
+            has(sub, "hostname"), has(sub, "port"), has(sub, "priority"), per)))))
 
 
 def regf_opaque_hs():
@@ -501,7 +812,7 @@ def regf_inline_sm():
 
 
 for _c in CONTRACTS:
-    if _c.target == T + "Common._connect":
+    if _c.target in (T + "Common._connect", T + "Common.get_connection_hints"):
         _c.qf_feasibility = True      # quantified invariants: branch pruning without them (keeps more paths, never fewer)
 
 
@@ -515,13 +826,18 @@ def regf_inbound():
 
 def tasks():
     special = {T + "InboundConnectionFactory.connectionWasMade": regf_inbound, T + "Connection._dataReceived": regf_opaque_hs, T + "Connection.startNegotiation": regf_inline_sm,
-               T + "there_can_be_only_one": lambda: regf(exclude=(T + "_ThereCanBeOnlyOne.__init__",))}
+               T + "there_can_be_only_one": lambda: regf(exclude=(T + "_ThereCanBeOnlyOne.__init__",)),
+               T + "Common.connect": regf_connect, T + "Common.get_connection_hints": regf_connect}
     return [ContractTask(c, special.get(c.target, regf)) for c in CONTRACTS]
 
 
 TRUSTED = TRUSTED_LIB + ["the hint / endpoint / sorted() / task.deferLater / endpoint.connect models of props/c20.py (listed under C20's "
                          "TRUSTED), used by Common._connect and _start_connector; time.time() returns a real; DelayedCall.active() "
-                         "answers either way, DelayedCall.cancel() is a recorded event"]
+                         "answers either way, DelayedCall.cancel() is a recorded event",
+                         "listening (install_listener_models): allocate_tcp_port() returns an int in 1..65535 (the OS's answer to bind(0)); "
+                         "ipaddrs.find_addresses() returns some list of str; endpoints.serverFromString(reactor, description) returns an "
+                         "endpoint object; its listen(factory) returns a new Deferred and calls nothing back synchronously; "
+                         "defer.succeed(x) is a new, already fired Deferred carrying x"]
 ASSUMPTIONS = [
     "HKDF idealisation (injective in the key for a fixed info) and unhexlify(hexlify(x)) == x: used by "
     "lemma:handshakes_bind_key_and_role and lemma:other_key_is_rejected only; that a party without the transit key cannot "
@@ -546,7 +862,25 @@ ASSUMPTIONS = [
     "not under contract",
     "the callbacks registered on Deferreds (_not_forever's _done, _start_connector's lambda) are run as real code on a probe "
     "value by the clause that describes them; that Twisted calls them with the Deferred's result is the Deferred contract",
-    "not under contract: Common.connect (the inlineCallbacks wrapper: yields _get_transit_key() then _connect() and returns the "
-    "winner), Common._get_direct_hints' _stop_listening closure (stops the listener when the listener's Deferred fires), "
-    "InboundConnectionFactory._proto_failed, Connection.__init__ as a function of its own (inlined in buildProtocol)",
+    "Common.connect / get_connection_hints (@inlineCallbacks, transit_yield_model): a generator is resumed once per fired Deferred with "
+    "its result or the failure is raised at the yield; defer.succeed(x) resumes at once with x; at a real suspension every field "
+    "of self except is_sender/_side/_tor/_reactor/_no_listen/_transit_relays (stored by __init__ only; not checked syntactically "
+    "here) is havocked and the class invariant is assumed again: CLASS_INV (peer hints parsed - C20's add_connection_hints keeps "
+    "it; __init__ is not under contract) resp. LISTEN_INV + own_direct_ok(_my_direct_hints) (postconditions of _get_direct_hints)",
+    "deferred-result contracts: a key waiter (must be in _waiting_for_transit_key: proved) is fired by set_transit_key with the key it "
+    "just stored, and that key is non-empty (callers pass derive_key(.., SecretBox.KEY_SIZE); set_transit_key itself is not under "
+    "contract); the Deferred of _connect fires with some Connection (the race's winner) or fails (exception class RaceFailure "
+    "stands for whatever the first failure was); the Deferred of _get_direct_hints fires with self._my_direct_hints (justified "
+    "by _get_direct_hints' clauses already-fired-when-nothing-to-start / once-listening-it-fires-with-the-hints..)",
+    "Common.connect: `with self._timing.add(..)` is dropped syntax (DebugTiming's context manager does not swallow exceptions); "
+    "this version of connect() sets no description - the winner describes itself (Connection.describe)",
+    "_transit_key is typed bytes, b'' standing for the initial None (both falsy), as in the older contracts",
+    "get_connection_hints: the two append loops (one dict per direct hint, one per relay sub-hint) are read as the comprehension they "
+    "spell out (interp.desugar_simple_for / comp_pure); the relay part (relay_dict_of: each relay dict reproduces the configured "
+    "sub-hints unchanged and in order) is written (spec function relay_dict_of) but NOT registered: the clause and the matching "
+    "loop invariant stayed undecided (z3+cvc5 unknown) in the time available; registered for the relay part is only the count",
+    "not under contract: Common.set_transit_key, Common._get_transit_key as a function of its own (inlined in connect), "
+    "Common._stop_listening (test helper), InboundConnectionFactory._proto_failed, Connection.__init__ as a function of its own "
+    "(inlined in buildProtocol); this version has no Common._get_relay_hints / _start_listener (the listener is started inside "
+    "_get_direct_hints)",
 ]
